@@ -72,6 +72,9 @@ def run_case(c: Dict[str, Any], keep_call: bool = False) -> Dict[str, Any]:
     core.reset_world()
     cfg = {"max_calc_step_size_feet": 1.0, "cGravityConstant": -1.0 / 16.0 if sc["grav"] else 0.0,
            "cMinimumVelocity": float(sc["vel"]), "cMaximumDrop": sc["drop"] / 64.0, "cMinimumAltitude": sc["alt"] / 64.0}
+    if (sc["range"] + sc["step"] + sc["sight"]) % 3 == 0:
+        # whole-numbered settings as Python ints for a third of the scenarios
+        cfg = {k: (int(v) if float(v).is_integer() else v) for k, v in cfg.items()}
     calc = m.Calculator(_config=cfg)
     winds = [m.Wind(U.FPS(abs(w2) / 2.0), U.Degree(0.0 if w2 >= 0 else 180.0), U.Foot(e4 / 4.0)) for w2, e4 in sc["winds"]]
     shot = m.Shot(weapon=m.Weapon(U.Foot(sc["sight"] / 64.0), U.Inch(0)), ammo=m.Ammo(m.DragModel(0.5, m.TableG1), U.FPS(4.0)),
